@@ -240,6 +240,49 @@ def front (p : Prin) (owner : Nat) (log : List Item) : Nat := frontFrom p (G0 ow
 /-- does a key map (newest first) hold generation `g` (`Keys()[readKeyChanges[g]].ReadKey != nil`) -/
 def hasGen (hasRev : List Bool) (g : Nat) : Bool := hasRev.reverse.getD g false
 
+/-! ### the per-tree key cache of a long-lived tree object (`objectTree.keys`, `readKeysFromAclState`) -/
+
+/-- `readKeysFromAclState`: `ot.keys` is the set of generations for which the tree holds a derived key.
+The rescan is skipped only when the tree already holds a derived key for EVERY generation
+(`len(ot.keys) == len(state.Keys())`: `ot.keys` has entries only for derived keys, `state.Keys()` one per
+generation); otherwise every generation whose read key the ACL view holds and the tree lacks is derived.
+It runs whenever the tree is *touched* (built, `AddRawChanges`, `AddContent`/`PrepareChange`), not on
+`IterateRoot`. -/
+def refresh (hasRev : List Bool) (cache : List Nat) : List Nat :=
+  if cache.length == hasRev.length then cache
+  else cache ++ (List.range hasRev.length).filter (fun g => hasGen hasRev g && !(cache.contains g))
+
+/-- a long-lived tree lives through ACL contents and touches -/
+inductive Ev where
+  | item (it : Item)
+  | touch
+deriving Repr
+
+def evItems : List Ev → List Item
+  | [] => []
+  | .item it :: r => it :: evItems r
+  | .touch :: r => evItems r
+
+/-- the account's key map and the cache of its long-lived tree along a history with touches; the tree
+is built (first touch) right after the root -/
+def treeFrom (me : Nat) : G → List Bool → List Nat → List Ev → Option (List Bool × List Nat)
+  | _, h, c, [] => some (h, c)
+  | g, h, c, .touch :: rest => treeFrom me g h (refresh h c) rest
+  | g, h, c, .item it :: rest =>
+    match vstep me g h it with
+    | some h' => treeFrom me (gstep g it) h' c rest
+    | none => none
+
+def treeRun (me owner : Nat) (evs : List Ev) : Option (List Bool × List Nat) :=
+  treeFrom me (G0 owner) (view0 me owner) (refresh (view0 me owner) []) evs
+
+/-- `IterateRoot`'s decrypt: the change's `ReadKeyId` must be in `ot.keys` (else `ErrNoReadKey`) -/
+def treeDecrypts (cache : List Nat) (g : Nat) : Bool := cache.contains g
+
+/-- `prepareBuilderContent` after the refresh: `ot.currentReadKey` = derived key of the current generation -/
+def treeWriteKey (tree : Nat) (n : Nat) (cache : List Nat) : Option Term :=
+  if cache.contains (n - 1) then some (.tk tree (n - 1)) else none
+
 /-! ### change builder (`changeBuilder.Build`) -/
 
 inductive BuildErr where
